@@ -96,8 +96,9 @@ Specified ==
   /\ ((\E i \in 1..D : G(i)) => "x" \in AllDefs(0))
   \* nonlocal at module level is not Python; global at module level is a no-op we do not test
   /\ (decl # "none" => P # 0)
-  \* declaring a name that the declaring let form itself binds
-  /\ ~(Kind(D) = "let" /\ dn \cap Defs(D) # {})
+  \* declaring nonlocal a name that the declaring let form itself binds is not specified
+  \* (a global declaration there is: the name means the module's variable from then on)
+  /\ ~(Kind(D) = "let" /\ decl = "nonlocal" /\ dn \cap Defs(D) # {})
 
 Outcome == IF \/ \E n \in Names : Target(n) \in {Syntax, NoBinding}
               \/ \E i \in 1..D : L(i) = "nonlocal" /\ Res(i) = NoBinding
